@@ -15,4 +15,5 @@ def obligations(tier):
     for (it, ot) in [(0, 0), (5, 2), (3, 4)] if tier == 'quick' else [(i, (i * 3 + 1) % 8) for i in range(8)]:
         for op in (0, 2):
             obls.append(api_step(op, it, ot, 2, 2))
+    obls += dft_set(tier)      # the DFT stage: block bookkeeping and phase carry of the real dft_stage_fn
     return obls
